@@ -896,10 +896,10 @@ class Emitter:
                 cnt = I['count']
                 if cnt[1][0] != 'int':
                     raise IRError('dynamic alloca')
-                allocas.append('%s %s_mem[%d];' % (self.ct(et, True), res, cnt[1][1]))
+                allocas.append('%s %s_mem[%d]%s;' % (self.ct(et, True), res, cnt[1][1], ' = {0}' if getattr(self, 'zero_allocas', False) else ''))
                 body.append('%s = %s_mem;' % (res, res))
             else:
-                allocas.append('%s %s_mem;' % (self.ct(et, True), res))
+                allocas.append('%s %s_mem%s;' % (self.ct(et, True), res, ' = {0}' if getattr(self, 'zero_allocas', False) else ''))
                 body.append('%s = &%s_mem;' % (res, res))
             return
         if op == 'load':
@@ -1436,6 +1436,7 @@ def run(a):
     em = Emitter(mod, a.scale)
     em.replace = build_replace(mod, spec)
     em.typed_alloc_enabled = bool(spec.get('typed_alloc'))
+    em.zero_allocas = bool(spec.get('zero_allocas'))   # opt-in: stack slots start zeroed (a partially initialised aggregate is not a constant for CBMC's propagation)
     rt_provided = set(spec.get('rt_provided', []))
     rtdir = os.path.join(os.path.dirname(os.path.dirname(os.path.abspath(__file__))), 'rt')
     c_includes = ['ir2c_rt_impl.c', 'libstdcxx.c'] + spec.get('c_include', [])
